@@ -1030,7 +1030,7 @@ PROP = Property(
           "distinct = (platform, method, errno | slot, outcome)."),
     strategy=strategy,
     run_case=run_case,
-    budgets={"quick": 21000, "thorough": 70000},
+    budgets={"quick": 21000, "thorough": 420000},
     assumptions=[
         "the native C / Obj-C sources of other platforms are not compiled or "
         "executed: the Python layers are driven over a stub native layer",
